@@ -140,6 +140,7 @@ func sequentialCases(run *common.Run) *part {
 		order += len(f.Configs)
 		var st, ed, rp, ev, closed, ran, truncated int64
 		maxDepth := 0
+		var cand []int
 		for i, r := range results {
 			if r == nil {
 				continue
@@ -165,8 +166,15 @@ func sequentialCases(run *common.Run) *part {
 				p.Violations = append(p.Violations, cv.v)
 			}
 			p.InfraErrors = append(p.InfraErrors, r.infra...)
-			if r.sample != nil && (i%997 == 0 || len(p.Samples) < 2) && len(p.Samples) < 10 {
-				p.Samples = append(p.Samples, r.sample)
+			if r.sample != nil {
+				cand = append(cand, i)
+			}
+		}
+		// two samples per family: the first configuration that has one and the middle one
+		if len(cand) > 0 {
+			p.Samples = append(p.Samples, results[cand[0]].sample)
+			if len(cand) > 2 {
+				p.Samples = append(p.Samples, results[cand[len(cand)/2]].sample)
 			}
 		}
 		if done < len(f.Configs) || ran < int64(len(f.Configs)) || truncated > 0 {
